@@ -40,7 +40,7 @@ LEVEL_TEXT = ('Metamorphic runtime monitoring of the real decoder / encoder pair
 LEVEL_NOTE = 'Trusted: ElementTree serialisation, the structural comparer, is_valid() of the same schema as judge of the encoder output.'
 TECHNIQUE = 'runtime monitoring: metamorphic round-trip oracle + re-validation of strict-encode output over seeded data mutations'
 
-ALL_FAMILIES = dict(D.FAMILIES, poly=D.EXTRA_FAMILIES['poly'])   # fx documents are valid or invalid by design
+ALL_FAMILIES = dict(D.FAMILIES, poly=D.EXTRA_FAMILIES['poly'], un=D.EXTRA_FAMILIES['un'])   # fx documents are valid or invalid by design
 
 
 def plan(tier, seed):
@@ -103,6 +103,17 @@ def contiguous(tree):
         if n.meta.get('mixed') and n.children:
             return False
     return True
+
+
+def list_valued_union_child(schema, original, local):
+    """Does the document hold an element `local` whose declared type is a union with list and non-list members and whose
+    text has more than one list item?"""
+    from xmlschema.validators import XsdElement
+    decl = [c for c in schema.iter_components(XsdElement) if c.local_name == local and c.type is not None and c.type.is_union()
+            and any(mt.is_list() for mt in c.type.member_types) and not c.type.is_list()]
+    if not decl:
+        return False
+    return any(len((e.text or '').split()) > 1 for e in original.iter() if e.tag.rsplit('}', 1)[-1] == local)
 
 
 def normalise_reason(r):
@@ -179,6 +190,13 @@ def run_shard(spec, res):
             try:
                 elem = schema.encode(data, path=original.tag, **ekw)
             except xmlschema.XMLSchemaValidationError as e:
+                m = re.search(r"Unexpected child with tag '(?:[\w.-]+:)?([\w.-]+)'", e.reason or '')
+                if m and cname != 'jsonml' and list_valued_union_child(schema, original, m.group(1)):
+                    # a union with a list member decodes to a Python list, which the dict-shaped conventions read
+                    # back as repeated elements: keyed by that cause, not by the message
+                    res.violation(f'roundtrip:list-value-of-union-type-read-back-as-repeated-elements:{cname}', case,
+                                  f'{fam} {cname} {case["options"]}: {clean_reason(e.reason)[:160]}')
+                    continue
                 res.violation(f'roundtrip:encode-rejects-decoded-data:{cname}:{normalise_reason(e.reason)}', case,
                               f'{fam} {cname} {case["options"]}: {clean_reason(e.reason)[:160]}')
                 continue
